@@ -448,10 +448,10 @@ def methods(ctx):
                 except evalsum.NoInstruction:
                     pass
                 except Anchor as ex:
-                    if s["problems"]:
+                    if s["problems"] or (hand and s["emits"]):
+                        # a hand-written method whose evaluation gives no single answer (e.g. it branches on the value of an
+                        # argument) is reported, even if its statements look like a recognised shape
                         s["problems"] = s["problems"][:2] + ["evaluation: %s" % ex]
-                    elif not s["emits"]:
-                        pass
             if any(x[0] == "mcall" and x[2] == "dedup_insert_type" for x in walk(f["body"])) and f["name"] != "dedup_insert_type":
                 # implicit-type methods: the explicit / found / fresh decision is evaluated on builders with and without an identical declaration
                 from . import evalsum
